@@ -88,7 +88,15 @@ class Stack(Sequence[T]):
         """Drop the last snapshot."""
         if self.lengths:
             item_count, remained_count = self.lengths.pop()
-            del self.popped[item_count - remained_count :]
+            start = len(self.popped) - (item_count - remained_count)
+            if self.lengths and remained_count < self.lengths[-1][1]:
+                # Items popped below the outer snapshot's low-water mark now
+                # belong to the outer snapshot.
+                outer_count, outer_remained = self.lengths[-1]
+                del self.popped[start : start + item_count - outer_remained]
+                self.lengths[-1] = (outer_count, remained_count)
+            else:
+                del self.popped[start:]
 
     def restore(self) -> None:
         """Rewind the stack to the most recent snapshot.
